@@ -125,6 +125,9 @@ type c10Case struct {
 	Cr     int64      `json:"cr"`
 	Qs     []c10Query `json:"qs"`
 	Cfgs   []string   `json:"cfgs"`
+	// WantLazy: the case is built so that lazy posting expansion must really happen on the
+	// "lazy=aggr" stores; the harness fails (exit 2, not a verdict) if it does not.
+	WantLazy bool `json:"want_lazy"`
 }
 
 // frame of an answer: labels and chunks [mint, maxt, crc of samples]
@@ -328,6 +331,54 @@ func TestC10(t *testing.T) {
 				qs = append(qs, c10Query{Ms: []c10Matcher{extMatchers[rnd.Intn(len(extMatchers))]}, Mint: a, Maxt: b})
 			}
 			yield(c10ToCase(c10Case{Blocks: blocks, Cr: cr, Qs: qs, Cfgs: pickCfgs(4)}))
+		}
+		// --- time structure x cache history x lazy expansion ---
+		// Series cover different sub-ranges of the block (only early, only late, middle, all, one
+		// slot); the same selectors are asked over narrow-then-wide, wide-then-narrow and disjoint
+		// ranges on stores that share one index cache over the history. Two label names with keys,
+		// so that the aggressive cost setting makes the second posting group lazy.
+		for wi := 0; wi < vt.Pick(8, 40); wi++ {
+			var series []c10Series
+			covers := [][]int{{0, 1}, {2, 3}, {1, 2}, {0, 1, 2, 3}, {0}, {3}, {0, 3}}
+			ns := 6 + rnd.Intn(8)
+			for si := 0; si < ns; si++ {
+				l := map[string]string{"job": "j", "id": fmt.Sprintf("s%02d", si), "n0": []string{"a", "b"}[rnd.Intn(2)], "n1": []string{"a", "b"}[rnd.Intn(2)]}
+				if si < 4 { // every combination of n0, n1 exists
+					l["n0"], l["n1"] = []string{"a", "b"}[si%2], []string{"a", "b"}[si/2]
+				}
+				var smp [][2]int64
+				for _, k := range covers[(si+wi)%len(covers)] {
+					for _, o := range [][]int64{{100, 400}, {0, 999}, {500}}[rnd.Intn(3)] {
+						smp = append(smp, [2]int64{int64(k)*cr + o, int64(si*100 + k)})
+					}
+				}
+				series = append(series, c10Series{Ls: l, Samples: smp})
+			}
+			blocks := []c10Block{{Ext: map[string]string{"ext": "e1"}, Series: series}}
+			sels := [][]c10Matcher{
+				{{"n0", "EQ", "lit", []string{"a"}}, {"n1", "EQ", "lit", []string{"b"}}},
+				{{"n0", "EQ", "lit", []string{"b"}}, {"n1", "RE", "set", []string{"a", "b"}}},
+				{{"n0", "RE", "set", []string{"a", "b"}}, {"n1", "NEQ", "lit", []string{"a"}}},
+				{{"n0", "EQ", "lit", []string{"a"}}, {"n1", "RE", "cls", []string{"a", "b"}}, {"job", "EQ", "lit", []string{"j"}}},
+				{{"n0", "NRE", "set", []string{"b"}}, {"n1", "EQ", "lit", []string{"a"}}},
+			}
+			hist := [][][2]int64{
+				{{0, 999}, {-10, 10000}},                  // narrow, then wide
+				{{-10, 10000}, {2000, 2999}},              // wide, then narrow
+				{{0, 999}, {3000, 3999}},                  // disjoint
+				{{1000, 1999}, {0, 3999}, {3500, 5000}},   // narrow, wide, narrow
+				{{3000, 3000}, {0, 0}, {0, 4000}},         // points, then everything
+			}
+			var qs []c10Query
+			for _, k := range rnd.Perm(len(sels))[:3] {
+				for _, r := range hist[rnd.Intn(len(hist))] {
+					qs = append(qs, c10Query{Ms: sels[k], Mint: r[0], Maxt: r[1]})
+				}
+			}
+			cfgs := []string{"lazy=aggr,batch=1,samp=1,cache=big", "lazy=aggr,batch=10000,samp=3,cache=big", "lazy=off,batch=2,samp=1,cache=big",
+				"lazy=on,batch=10000,samp=32,cache=big", "lazy=aggr,batch=2,samp=3,cache=tiny", "lazy=aggr,batch=3,samp=1,cache=none"}
+			c := c10Case{Blocks: blocks, Cr: cr, Qs: qs, Cfgs: cfgs, WantLazy: true}
+			yield(c10ToCase(c))
 		}
 		// --- bigger seeded worlds ---
 		for wi := 0; wi < vt.Pick(6, 30); wi++ {
@@ -717,6 +768,9 @@ func runC10(t *testing.T, c vt.Case) vt.Event {
 	for _, s := range stores {
 		lazyApplied += c10Counter(s.reg, "thanos_bucket_store_lazy_expanded_postings_total", nil)
 		epHits += c10Counter(s.reg, "thanos_store_index_cache_hits_total", map[string]string{"item_type": "ExpandedPostings"})
+	}
+	if cs.WantLazy && lazyApplied == 0 {
+		t.Fatalf("c10: the case was built to make lazy posting expansion happen, but thanos_bucket_store_lazy_expanded_postings_total stayed 0 on every store: the harness' assumption about the optimizer is broken")
 	}
 	evQs := make([]map[string]any, 0, len(cs.Qs))
 	for qi, q := range cs.Qs {
